@@ -634,6 +634,32 @@ def c16(report, rng, tier, findings):
         "multiset equality is claimed for inner collections without a repeated element inside one collection"]
 
 
+def uses_concat_twice(case):
+    in_sel = any(t[0] == 'concat' for t in case['sel'])
+    return in_sel and 'concat' in str(case.get('cond'))
+
+class J17(QueryJudge):
+    """QueryJudge + attribution of known finding C05-F5 (concatenate used twice, caching on)."""
+    def __call__(self, case, res, drv):
+        n_before = len(self.report.violations)
+        super().__call__(case, res, drv)
+        new = self.report.violations[n_before:]
+        if new and uses_concat_twice(case) and 'C05-F5' in self.findings:
+            # known finding C05-F5: caching on, the concatenation is used by a condition AND selected: the cached
+            # comparison gives back the operand's variable (bound to the aggregated list) but not the value of the
+            # Concatenate node, which is then re-evaluated under that binding and raises
+            off_ok = all(canon(o[1], case, True) == canon(res['spec'], case, True)
+                         for k, cfg in res['impl'].items() if k.startswith('off') for o in cfg['outs'] if o[0] == 'rows') \
+                and all(o[0] == 'rows' for k, cfg in res['impl'].items() if k.startswith('off') for o in cfg['outs'])
+            keep = []
+            for what, payload in new:
+                if off_ok and '(caching on' in what and 'raised AttributeError' in what:
+                    self.known('C05-F5')
+                else:
+                    keep.append((what, payload))
+            self.report.violations[n_before:] = keep
+
+
 def c17(report, rng, tier, findings):
     n = n_cases(tier, 300, 4000)
     cases = []
@@ -648,9 +674,30 @@ def c17(report, rng, tier, findings):
         praw = [('o', j) for j in range(npar)]
         oraw = [('o', npar + j) for j in range(extra)]
         C = ('concat', 200, ('attr', 'items', ('var', 0)))
-        kind = rng.choice(('value', 'member', 'notmember', 'contains'))
+        kind = rng.choice(('value', 'member', 'notmember', 'contains', 'compound', 'compound', 'select_both'))
         if kind == 'value':
             case = {'sel': [C], 'cond': None, 'entity': True, 'vars': [(0, 'A', praw)]}
+        elif kind in ('compound', 'select_both'):
+            # the membership test (or its negation) combined with a condition on the OUTER variable by and_/or_, in
+            # either order (the outer variable is then bound before or after the concatenation is evaluated); or the
+            # concatenation selected next to the outer variable
+            item = ('attr', 'a', ('var', 1))
+            mem = ('in', item, C) if rng.random() < 0.7 else ('contains', C, item)
+            if rng.random() < 0.35:
+                mem = ('not', mem)
+            atom = ('cmp', rng.choice(('gt', 'le', 'ne', 'eq')), item, ('lit', ('i', rng.randint(0, 5))))
+            pair = [mem, atom]
+            if rng.random() < 0.5:
+                pair.reverse()
+            cond = (rng.choice(('and', 'or')),) + tuple(pair)
+            if rng.random() < 0.2:
+                cond = ('not', cond)
+            if kind == 'compound':
+                case = {'sel': [('var', 1)], 'cond': [cond], 'entity': True, 'vars': [(0, 'A', praw), (1, 'B', oraw)]}
+            else:
+                sel = [('var', 1), C] if rng.random() < 0.5 else [C, ('var', 1)]
+                case = {'sel': sel, 'cond': [rng.choice([atom, cond, mem])], 'entity': False,
+                        'vars': [(0, 'A', praw), (1, 'B', oraw)]}
         else:
             item = ('attr', 'a', ('var', 1))
             cond = ('in', item, C) if kind != 'contains' else ('contains', C, item)
@@ -664,13 +711,15 @@ def c17(report, rng, tier, findings):
         cases.append(case)
     report.rule = ("1-5 parents (empty, overlapping, repeated, scalar inner collections); concatenate(p.items) evaluated alone (the "
                    "single value compared as a SEQUENCE) and as the container of in_/contains/not_(in_) tests of another variable's "
-                   "attribute, 1-4 outer objects, members and non-members; two evaluations, 40% of the cases after an evaluation of "
+                   "attribute, 1-4 outer objects, members and non-members; the membership test also combined by and_/or_ (either "
+                   "order, possibly negated) with a comparison on the outer variable, and the concatenation selected next to the "
+                   "outer variable; two evaluations, 40% of the cases after an evaluation of "
                    "the same query that was abandoned at its first or second row; compared with the oracle; non-trivial = at "
                    "least two parents with elements")
 
     def nontriv(case, res):
         return sum(1 for _, c, a in case['objs'] if c == 'A' and a['items'] != ('l',)) >= 2
-    judge = QueryJudge(report, findings, 'C17', nontrivial=nontriv, ordered=True)
+    judge = J17(report, findings, 'C17', nontrivial=nontriv, ordered=True)
     for c in cases:
         report.count('kind_' + c['kind'])
     run_query_cases(report, cases, {'caching': (False, True), 'evals': 2, 'ordered': True}, judge)
@@ -698,6 +747,43 @@ def nonuniform_or(c):
             return len(set(sets)) > 1 or any(nonuniform_or(('not', x)) for x in inner[1:])
         return nonuniform_or(inner)
     return False
+
+
+def fa_entries(case):
+    return [([case['forall'][0]], case['forall'][1])] if case.get('forall') else list(case['foralls'])
+
+
+
+class J10(QueryJudge):
+    """QueryJudge + attribution of the known findings C05-F3 and C10-F1."""
+    def __call__(self, case, res, drv):
+        n_before = len(self.report.violations)
+        super().__call__(case, res, drv)
+        # known finding C10-F1: disjunctions over different variable sets (the intersection compares bindings of
+        # different shapes) - attributed only if the model (which transliterates ForAll) reproduces the answer
+        new = self.report.violations[n_before:]
+        entries = fa_entries(case)
+        if new and (case.get('cond') or len(entries) > 1) and 'C05-F3' in self.findings:
+            keep = []
+            for what, payload in new:
+                off_ok = all(canon(o[1], case) == payload.get('expected') for k, cfg in res['impl'].items()
+                             if k.startswith('off') for o in cfg['outs'] if o[0] == 'rows')
+                if '(caching on' in what and off_ok:
+                    self.known('C05-F3')
+                else:
+                    keep.append((what, payload))
+            self.report.violations[n_before:] = keep
+            new = keep
+        if new and any(nonuniform_or(c) for _, cs in entries for c in cs) and 'C10-F1' in self.findings:
+            model = drv['model']
+            model_obs = canon(model[1], case) if model[0] == 'rows' else model
+            keep = []
+            for what, payload in new:
+                if payload.get('observed') == model_obs:
+                    self.known('C10-F1')
+                else:
+                    keep.append((what, payload))
+            self.report.violations[n_before:] = keep
 
 
 def c10(report, rng, tier, findings):
@@ -770,9 +856,6 @@ def c10(report, rng, tier, findings):
                    "written BEFORE the other conjunct, or a later conjunct that mentions the universal variable free; compared with {f | all(c(f,u) for u in U)}; caching on and off, "
                    "two evaluations; non-trivial = the universal domain has >= 2 values and the answer is neither empty nor everything")
 
-    def fa_entries(case):
-        return [([case['forall'][0]], case['forall'][1])] if case.get('forall') else list(case['foralls'])
-
     def nontriv(case, res):
         us = {u_ for us_, _ in fa_entries(case) for u_ in us_}
         if case.get('fa_shape') == 'free_after':
@@ -781,36 +864,7 @@ def c10(report, rng, tier, findings):
             {**case, 'vars': [v for v in case['vars'] if v[0] not in us]},
             {**res, 'dom_sizes': {k: v for k, v in res['dom_sizes'].items() if k not in us}})
 
-    class J(QueryJudge):
-        def __call__(self, case, res, drv):
-            n_before = len(self.report.violations)
-            super().__call__(case, res, drv)
-            # known finding C10-F1: disjunctions over different variable sets (the intersection compares bindings of
-            # different shapes) - attributed only if the model (which transliterates ForAll) reproduces the answer
-            new = self.report.violations[n_before:]
-            entries = fa_entries(case)
-            if new and (case.get('cond') or len(entries) > 1) and 'C05-F3' in self.findings:
-                keep = []
-                for what, payload in new:
-                    off_ok = all(canon(o[1], case) == payload.get('expected') for k, cfg in res['impl'].items()
-                                 if k.startswith('off') for o in cfg['outs'] if o[0] == 'rows')
-                    if '(caching on' in what and off_ok:
-                        self.known('C05-F3')
-                    else:
-                        keep.append((what, payload))
-                self.report.violations[n_before:] = keep
-                new = keep
-            if new and any(nonuniform_or(c) for _, cs in entries for c in cs) and 'C10-F1' in self.findings:
-                model = drv['model']
-                model_obs = canon(model[1], case) if model[0] == 'rows' else model
-                keep = []
-                for what, payload in new:
-                    if payload.get('observed') == model_obs:
-                        self.known('C10-F1')
-                    else:
-                        keep.append((what, payload))
-                self.report.violations[n_before:] = keep
-    judge = J(report, findings, 'C10', nontrivial=nontriv)
+    judge = J10(report, findings, 'C10', nontrivial=nontriv)
     for c in cases:
         report.count('mode_' + c['fa_mode'])
         report.count('universal_expression' if c.get('forall_expr') else 'universal_variable')
@@ -1149,3 +1203,10 @@ def c05(report, rng, tier, findings):
 
 
 HANDLERS = {'C05': c05, 'C04': c04, 'C13': c13, 'C10': c10, 'C16': c16, 'C17': c17, 'C09': c09, 'C03': c03, 'C06': c06, 'C15': c15, 'C18': c18, 'C19': c19}
+
+
+# judges with check-specific known-finding attribution, also used by ./check --replay
+REPLAY_JUDGES = {
+    'C10': lambda report, findings: J10(report, findings, 'C10'),
+    'C17': lambda report, findings: J17(report, findings, 'C17', ordered=True),
+}
